@@ -138,13 +138,147 @@ def inplace_on_parameters():
     return out
 
 
+def _snap(objs):
+    out = []
+    for o in objs:
+        if torch.is_tensor(o):
+            out.append((o.detach().clone().numpy().tobytes(), tuple(o.shape), str(o.dtype)))
+        else:
+            out.append((o.tobytes(), tuple(o.shape), str(o.dtype)))
+    return out
+
+
+def ensemble_regime(ck, xr, nr):
+    """Ensembles (n_trees >= 2, optionally with tree iterations) whose trees really split, so that every per-tree loop of the public methods runs more than once.
+
+    Every public call (fit, predict, predict_proba, the gradient API — twice —, state export, the same calls on a model rebuilt from the exported state) is judged on its own:
+    just before it the CALLER sets the process-wide torch thread count to a value of its choice (below, equal to and above the model's n_threads, also above the core count),
+    and the statement's three clauses are evaluated from values read before the call: bytes of every array / tensor the caller ever handed to the model, torch.get_num_threads(),
+    os.environ.get('PYTORCH_CUDA_ALLOC_CONF').  Controls of the same family: data that do not split (fit stops after one tree), n_threads=None, caller count == n_threads."""
+    import io, contextlib
+    ENV = 'PYTORCH_CUDA_ALLOC_CONF'
+    t_process = torch.get_num_threads()
+    env_process = os.environ.get(ENV)
+    cores = os.cpu_count() or 4
+    reached = 0
+    for j in range(ck.n(10, 40)):
+        n_trees = [2, 3, 4][j % 3]
+        n_threads = [2, 3, 1, None, 5][j % 5]
+        caller_cycle = [[3, 1, 4], [2, cores + 2, 5], [4, 3, 2], [1, 6, 3]][j % 4]        # what the caller sets before successive calls (rotating)
+        task = ['reg', 'class', 'reg2'][(j // 2) % 3]
+        as_tensor = bool((j // 3) % 2)
+        kern = ['l2', 'l1', 'l2_high_dim', 'lpq'][(j // 2) % 4]
+        n_tree_iters = 1 if j % 5 == 3 else 0
+        routing = 'soft' if j % 7 == 5 else 'hard'
+        growth = ['max_leaf_size', 'max_leaf_size', 'number_of_splits', 'no_split'][(j + j // 4) % 4] if j % 11 != 10 else 'no_split'
+        n = int(nr.integers(150, 260)); d = int(nr.integers(3, 7))
+        if growth == 'max_leaf_size':
+            grow = dict(max_leaf_size=int(nr.integers(n // 4, n // 2)))                     # 2 to 4 leaves per tree
+        elif growth == 'number_of_splits':
+            grow = dict(max_leaf_size=10_000, number_of_splits=[1, 2, 3][j % 3])
+        else:
+            grow = dict(max_leaf_size=10_000)                                                # root leaf: fit keeps a single tree whatever n_trees says
+        X = xr.make_X('random', n, d, nr); Xv = xr.make_X('random', 60, d, nr)
+        if task == 'class':
+            y = xr.make_y('class', X, nr); yv = xr.make_y('class', Xv, nr); metric = 'brier'
+        else:
+            y = xr.make_y(task, X, nr); yv = xr.make_y(task, Xv, nr); metric = None
+        conv = (lambda a: torch.tensor(a)) if as_tensor else (lambda a: a.copy())
+        args = [conv(X), conv(y), conv(Xv), conv(yv)]
+        Q = conv(xr.make_X('random', int(nr.integers(5, 40)), d, nr))
+        caller_objs = args + [Q]; names = ['X', 'y', 'X_val', 'y_val', 'query']
+        init_env = [None, 'max_split_size_mb:128', '', 'expandable_segments:False'][j % 4]
+        desc = dict(regime='ensemble', j=j, n_trees=n_trees, n_tree_iters=n_tree_iters, n_threads=n_threads, kernel=kern, task=task, tensors=as_tensor, routing=routing,
+                    growth=growth, n=n, d=d, n_query=int(Q.shape[0]), init_env=init_env, seed=ck.seed, **grow)
+        ctor = dict(rfm_params=xr.default_rfm_params(kernel=kern, iters=1, reg=1e-2, bandwidth=4.0, **(dict(norm_p=1.5) if kern == 'lpq' else {})), verbose=False,
+                    tuning_metric=metric, n_threads=n_threads, n_trees=n_trees, n_tree_iters=n_tree_iters, use_temperature_tuning=False,
+                    split_temperature=(0.3 if routing == 'soft' else None), random_state=ck.seed + j, **grow)
+        model = xr.xRFM(**copy.deepcopy(ctor))
+        if init_env is None:
+            os.environ.pop(ENV, None)
+        else:
+            os.environ[ENV] = init_env
+        state = {'k': 0}
+
+        def judged(call, fn, model_desc=''):
+            """Returns (returned normally, value).  The caller picks a thread count, the call runs, the three clauses are compared with what was read before the call."""
+            want = caller_cycle[state['k'] % len(caller_cycle)]; state['k'] += 1
+            torch.set_num_threads(want)
+            th0, e0, before = torch.get_num_threads(), os.environ.get(ENV), _snap(caller_objs)
+            try:
+                with xr.quiet(), contextlib.redirect_stderr(io.StringIO()):
+                    out = fn()
+            except NotImplementedError:
+                ck.count(f'ensemble: {call} not implemented for this routing mode'); return False, None
+            except Exception as e:
+                ck.count(f'ensemble: {call} raised'); ck.notes.append(f'{call} raised {e!r} on {desc}'[:300]); return False, None
+            th1, e1, after = torch.get_num_threads(), os.environ.get(ENV), _snap(caller_objs)
+            built = [t['type'] for t in (model.trees or [])]
+            here = dict(desc, call=call + model_desc, caller_threads_before_call=th0, threads_after_call=th1, trees_built=len(built), root_types=built)
+            ck.case(here, nontrivial=len(built) >= 2, sample=(j == 0 and call == 'get_grads'))
+            ck.count(f'ensemble call={call}')
+            if th1 != th0:
+                ck.violation(f'{call}{model_desc} on an ensemble of {len(built)} trees (roots {built}) left the torch thread count at {th1}; the caller had set {th0} before the call '
+                             f'(n_threads={n_threads} on the model) on {desc}', here, key=json.dumps(dict(site='threads', call=call)))
+            if e1 != e0:
+                ck.violation(f'{call}{model_desc} on an ensemble of {len(built)} trees left {ENV}={e1!r}, it was {e0!r} on {desc}', here, key=json.dumps(dict(site='env', call=call)))
+            for nm, b, a in zip(names, before, after):
+                if b != a:
+                    ck.violation(f'{call}{model_desc} on an ensemble of {len(built)} trees modified the caller\'s {nm} ({"tensor" if as_tensor else "array"}) on {desc}',
+                                 dict(here, which=nm), key=json.dumps(dict(site='caller-data', call=call, which=nm)))
+            return True, out
+
+        try:
+            ok, _ = judged('fit', lambda: model.fit(*args))
+            if not ok:
+                continue
+            built = [t['type'] for t in model.trees]
+            if len(built) >= 2:
+                reached += 1; ck.count('ensemble: models with two or more trees that split at the root')
+            else:
+                ck.count('ensemble: single-tree control (data do not split)')
+            judged('predict', lambda: model.predict(Q))
+            if task == 'class':
+                judged('predict_proba', lambda: model.predict_proba(Q))
+            judged('get_grads', lambda: model.get_grads(Q))
+            judged('get_grads', lambda: model.get_grads(Q), ' (second call in a row)')
+            ok, sd = judged('get_state_dict', lambda: model.get_state_dict())
+            judged('predict', lambda: model.predict(Q), ' (after the gradient calls)')
+            if ok and j % 2 == 0:
+                # the same public calls on a model rebuilt from the exported state (another n_threads than the exporting model had)
+                other = {2: 3, 3: 1, 1: 2, None: 2, 5: None}[n_threads]
+                m2 = xr.xRFM(**dict(copy.deepcopy(ctor), n_threads=other))
+                try:
+                    with xr.quiet():
+                        m2.load_state_dict(sd, torch.as_tensor(args[0]))
+                except Exception as e:
+                    ck.count('ensemble: load_state_dict raised'); ck.notes.append(f'load_state_dict raised {e!r} on {desc}'[:300]); m2 = None
+                if m2 is not None:
+                    tag = f' (model rebuilt from the exported state, n_threads={other})'
+                    keep_model, keep_nt = model, n_threads
+                    model, n_threads = m2, other
+                    judged('predict', lambda: m2.predict(Q), tag)
+                    judged('get_grads', lambda: m2.get_grads(Q), tag)
+                    judged('get_state_dict', lambda: m2.get_state_dict(), tag)
+                    model, n_threads = keep_model, keep_nt
+        finally:
+            torch.set_num_threads(t_process)
+            if env_process is None:
+                os.environ.pop(ENV, None)
+            else:
+                os.environ[ENV] = env_process
+    if not reached:
+        ck.notes.append('ensemble regime: no model with two or more trees was built in this run')
+
+
 def run(ck):
     from harness import xr
     from xrfm.rfm_src.gpu_utils import with_env_var
     ck.rule = ('(a) structure of with_env_var and of the thread save/set/restore in fit / predict / predict_proba re-read from the source; no other writer of '
                'process-wide settings; in-place operations on function parameters vs an allow-list; (b) random well-bracketed call trees (normal / raising) '
                'through the REAL decorator compared with the Coq event model; (c) real fit / predict / predict_proba / get_grads / get_state_dict: caller '
-               'tensors and arrays bitwise + _version, torch thread count and PYTORCH_CUDA_ALLOC_CONF before/after, probes inside the calls.  '
+               'tensors and arrays bitwise + _version, torch thread count and PYTORCH_CUDA_ALLOC_CONF before/after, probes inside the calls; the same three clauses call by call on ENSEMBLES (n_trees 2-4, tree iterations, trees that split by max_leaf_size / '
+               'number_of_splits, single-tree controls, models rebuilt from the exported state) with the caller choosing another thread count before every call.  '
                'non-trivial = config with a split tree or a nested decorated call; distinct by config hash')
     ck.trusted += ['Coq 8.16.1 kernel + vm_compute', 'AST structure checks (fail-closed)', 'byte / _version comparison of caller tensors']
     ck.assumptions += ['aliasing of caller tensors is observed (bytes, _version), not modelled', 'an exception between set and restore of the thread count is outside the property ("when they return")']
@@ -401,5 +535,6 @@ def run(ck):
         if bad_o:
             ck.violation(f'the torch thread count was {want_thr} before the call (n_threads=2 on the model) and is {bad_o} after it', dict(kind='oversubscribed', before=want_thr, after=bad_o),
                          key=json.dumps(dict(site='threads', call='oversubscribed')))
+    ensemble_regime(ck, xr, nr)
     ck.obligation('correspondence: inside every real fit the probes read the override value and the requested thread count (protocol model: the override is in force between Enter and Exit)',
                   'correspondence', not inside_mismatch, f'first mismatches: {inside_mismatch[:2]}')
